@@ -128,7 +128,19 @@ static void lagrange_ops(Polys &P) {
         // Mul
         int_pattern(P.a->coefs, 5, 512, tk); IntPolynomial_ifft(A, P.a); TorusPolynomial_ifft(Bq, P.b); LagrangeHalfCPolynomialMul(C, A, Bq); TorusPolynomial_fft(P.r, C);
         ref::negacyclic_mul_fast(P.r2->coefsT, P.a->coefs, P.b->coefsT, N); d = maxdiff(P.r->coefsT, P.r2->coefsT); if (d > 2) violation(key, fmt("LagrangeHalfCPolynomialMul error %lld units", (long long)d));
-        eval(20); nontrivial(1); outcome(mix(fnv(P.r->coefsT, 64), tk * 5 + tk2));
+        // aliased arguments (the API has no restriction): Mul(B,A,B), Mul(A,A,B), AddMul(A,A,B) = A + A*B, SubMul(B,A,B) = B - A*B, AddTo(A,A) = 2A, MultFFT(b,a,b)
+        { std::vector<uint32_t> pr(N); ref::negacyclic_mul_fast((Torus32 *)pr.data(), P.a->coefs, P.b->coefsT, N);
+          auto lim = [&](const char *name, const uint32_t *want, int64_t tol) { TorusPolynomial_fft(P.r, C); int64_t e = maxdiff(P.r->coefsT, (const Torus32 *)want); if (e > tol) violation(key, fmt("%s: error %lld units (allowed %lld) when the result object is one of the operands", name, (long long)e, (long long)tol)); };
+          std::vector<uint32_t> w(N);
+          IntPolynomial_ifft(A, P.a); TorusPolynomial_ifft(C, P.b); LagrangeHalfCPolynomialMul(C, A, C); lim("LagrangeHalfCPolynomialMul(B, A, B)", pr.data(), 2);
+          TorusPolynomial_ifft(Bq, P.b); IntPolynomial_ifft(C, P.a); LagrangeHalfCPolynomialMul(C, C, Bq); lim("LagrangeHalfCPolynomialMul(A, A, B)", pr.data(), 2);
+          TorusPolynomial_ifft(C, P.b); for (int i = 0; i < N; i++) w[i] = (uint32_t)P.b->coefsT[i] + pr[i]; LagrangeHalfCPolynomialAddMul(C, A, C); lim("LagrangeHalfCPolynomialAddMul(B, A, B)", w.data(), 3);
+          TorusPolynomial_ifft(C, P.b); for (int i = 0; i < N; i++) w[i] = (uint32_t)P.b->coefsT[i] - pr[i]; LagrangeHalfCPolynomialSubMul(C, A, C); lim("LagrangeHalfCPolynomialSubMul(B, A, B)", w.data(), 3);
+          TorusPolynomial_ifft(C, P.b); for (int i = 0; i < N; i++) w[i] = 2 * (uint32_t)P.b->coefsT[i]; LagrangeHalfCPolynomialAddTo(C, C); lim("LagrangeHalfCPolynomialAddTo(A, A)", w.data(), 2);
+          memcpy(P.r2->coefsT, P.b->coefsT, N * 4); torusPolynomialMultFFT(P.r2, P.a, P.r2); d = maxdiff(P.r2->coefsT, (const Torus32 *)pr.data()); if (d > 2) violation(key, fmt("torusPolynomialMultFFT(b, a, b): error %lld units", (long long)d));
+          memcpy(P.r2->coefsT, P.b->coefsT, N * 4); for (int i = 0; i < N; i++) w[i] = (uint32_t)P.b->coefsT[i] + pr[i]; torusPolynomialAddMulRFFT(P.r2, P.a, P.r2); d = maxdiff(P.r2->coefsT, (const Torus32 *)w.data()); if (d > 2) violation(key, fmt("torusPolynomialAddMulRFFT(b, a, b): error %lld units", (long long)d));
+          memcpy(P.r2->coefsT, P.b->coefsT, N * 4); for (int i = 0; i < N; i++) w[i] = (uint32_t)P.b->coefsT[i] - pr[i]; torusPolynomialSubMulRFFT(P.r2, P.a, P.r2); d = maxdiff(P.r2->coefsT, (const Torus32 *)w.data()); if (d > 2) violation(key, fmt("torusPolynomialSubMulRFFT(b, a, b): error %lld units", (long long)d)); }
+        eval(28); nontrivial(1); outcome(mix(fnv(P.r->coefsT, 64), tk * 5 + tk2));
         }, 120);
         if (fate.died()) violation(key, "process terminated instead of returning: " + fate_str(fate) + " " + fate.text.substr(0, 300));
     }
